@@ -104,6 +104,10 @@ def _packing_tests(ctx, fi):
         if not bumps:
             continue
         for t, pol in ex.conjuncts(n.test, True):
+            if not pol:
+                t = ex.negate_compare(t)
+                if t is None:
+                    continue
             c = canon_roles(ctx, fi, n, t)
             if c is None:
                 continue
